@@ -1719,3 +1719,188 @@ struct GcmHugeSim : StreamSim {
 };
 } // namespace
 Sim *make_gcmhuge_sim() { return new GcmHugeSim(); }
+namespace {
+// gcmjump: the stream position of a GCM context is advanced by J blocks without feeding J blocks (the same idea as the running-total jump of
+// the hash managers). After init (and an optional short piece) the context - plain data - is copied, both copies get in_length += 16 J and the
+// 32-bit block counter += J, and the rest of the stream is fed to the two copies through two different families. The state is reachable: the
+// counter and the length are those after J more blocks, and for any GHASH value there is a J-th block that produces it. Whatever the correct
+// continuation is, it is unique, so outputs and tags of the two families must agree.
+struct GcmJumpSim : StreamSim {
+        const char *name() const override { return "gcmjump"; }
+        int ctr_lo = -1, ctr_dir = 0; // where the low byte of the block counter lives in current_counter[], and where the next byte is
+        void locate_counter()
+        {
+                if (ctr_lo >= 0)
+                        return;
+                static uint8_t key[16], sched[16 * 15], iv[12], buf[257 * 16];
+                alignas(16) static struct isal_gcm_key_data kd;
+                static struct isal_gcm_context_data c0, c1, c2;
+                ((void (*)(const void *, void *, void *)) S.keyexp[0][0])(key, &kd, sched);
+                ((void (*)(void *)) S.precomp[0][0])(&kd);
+                ((void (*)(const void *, void *, const void *, const void *, uint64_t)) S.ginit[0][0])(&kd, &c0, iv, nullptr, 0);
+                c1 = c0;
+                ((void (*)(const void *, void *, void *, const void *, uint64_t)) S.enc_upd[0][0])(&kd, &c1, buf, buf, 16);
+                c2 = c0;
+                ((void (*)(const void *, void *, void *, const void *, uint64_t)) S.enc_upd[0][0])(&kd, &c2, buf, buf, 257 * 16);
+                int lo = -1, hi = -1;
+                for (int i = 0; i < 16; i++) {
+                        if ((uint8_t) (c1.current_counter[i] - c0.current_counter[i]) == 1 && lo < 0)
+                                lo = i;
+                }
+                for (int i = 0; i < 16; i++)
+                        if (i != lo && (uint8_t) (c2.current_counter[i] - c0.current_counter[i]) == 1)
+                                hi = i;
+                if (lo < 0 || hi < 0 || (hi - lo != 1 && hi - lo != -1) || c2.in_length != 257 * 16) {
+                        fprintf(stderr, "HARNESS: cannot locate the GCM block counter in the context (lo=%d hi=%d)\n", lo, hi);
+                        exit(2);
+                }
+                ctr_lo = lo;
+                ctr_dir = hi - lo;
+        }
+        void jump(uint8_t *ctx, uint64_t J)
+        {
+                struct isal_gcm_context_data *c = (struct isal_gcm_context_data *) ctx;
+                uint32_t v = 0;
+                for (int k = 0; k < 4; k++)
+                        v |= (uint32_t) c->current_counter[ctr_lo + k * ctr_dir] << (8 * k);
+                v += (uint32_t) J;
+                for (int k = 0; k < 4; k++)
+                        c->current_counter[ctr_lo + k * ctr_dir] = (uint8_t) (v >> (8 * k));
+                c->in_length += 16 * J;
+        }
+        Plan generate(uint64_t seed, const std::string &, bool, uint64_t idx) override
+        {
+                Rng g(seed, "plan");
+                Plan p;
+                p.cfg["ks"] = (int64_t) g.below(2);
+                p.cfg["famA"] = (int64_t) (idx % 4);
+                p.cfg["famB"] = (int64_t) ((idx % 4 + 1 + (idx / 4) % 3) % 4);
+                p.cfg["dec"] = (int64_t) g.below(2);
+                p.cfg["aadlen"] = (int64_t) g.below(33);
+                p.cfg["pre"] = (int64_t) (16 * g.below(4));
+                // positions: just below 2^31 blocks (the top bit sets inside the next call), at and above 2^31, high in the range, anywhere
+                uint64_t J;
+                switch (g.below(5)) {
+                case 0: J = (1ull << 31) - 1 - g.below(600); break;
+                case 1: J = (1ull << 31) + g.below(1 << 12); break;
+                case 2: J = (1ull << 31) + g.below(1u << 30); break;
+                case 3: J = (1ull << 32) - (1u << 16) - g.below(1u << 20); break;
+                default: J = g.below(1ull << 32) % ((1ull << 32) - (1u << 16)); break;
+                }
+                p.cfg["J"] = (int64_t) J;
+                int n = 1 + (int) g.below(3);
+                for (int i = 0; i < n; i++) {
+                        Op o;
+                        o.kind = OP_DELIVER;
+                        switch (g.below(4)) {
+                        case 0: o.c = (int64_t) (128 + g.below(8192)); break;
+                        case 1: o.c = (int64_t) (16 * (8 + g.below(600))); break;
+                        case 2: o.c = (int64_t) g.below(300); break;
+                        default: o.c = (int64_t) (4096 + g.below(4096)); break;
+                        }
+                        o.d = (int64_t) g.below(1 << 16);
+                        p.ops.push_back(o);
+                }
+                return p;
+        }
+        std::string render(const Plan &p) const override
+        {
+                std::string s = strfmt("gcm%d %s: %s vs %s, jump of %lld blocks after %lld bytes, pieces=[", p.get("ks") ? 256 : 128, p.get("dec") ? "dec" : "enc", gcm_fams[p.get("famA") % 4],
+                                       gcm_fams[p.get("famB") % 4], (long long) p.get("J"), (long long) p.get("pre"));
+                for (size_t i = 0; i < p.ops.size(); i++)
+                        s += strfmt("%s%lld", i ? " " : "", (long long) p.ops[i].c);
+                return s + "]";
+        }
+        void execute(const Plan &p, Env &e, RunResult &r) override
+        {
+                locate_counter();
+                int ks = (int) (p.get("ks") & 1), bits = ks ? 256 : 128, dec = (int) (p.get("dec") & 1);
+                int fam[2] = { (int) (p.get("famA") % 4), (int) (p.get("famB") % 4) };
+                if (fam[0] == fam[1])
+                        fam[1] = (fam[0] + 1) % 4;
+                size_t aad_len = (size_t) p.get("aadlen");
+                uint64_t J = (uint64_t) p.get("J");
+                Rng g(mix64(p.seed, 0x6a756d70), "gcmjump");
+                uint8_t *key = e.mem.alloc(ks ? 32 : 16, 1, END_FLUSH, nullptr, "raw key", R_INPUT);
+                g.fill(key, ks ? 32 : 16);
+                uint8_t *iv = e.mem.alloc(12, 1, END_FLUSH, nullptr, "gcm iv", R_INPUT);
+                g.fill(iv, 12);
+                uint8_t *aad = e.mem.alloc(aad_len, 1, END_FLUSH, nullptr, "gcm aad", R_INPUT);
+                g.fill(aad, aad_len);
+                uint8_t *kd[2], *ctx[2];
+                for (int s = 0; s < 2; s++) {
+                        kd[s] = e.mem.alloc(sizeof(struct isal_gcm_key_data), 16, START_FLUSH, &e.hidden, "gcm key data", R_OBJECT);
+                        uint8_t *tmpd = e.mem.alloc(16 * 15, 16, END_FLUSH, &e.hidden, "dec schedule out", R_OUTPUT);
+                        e.call(strfmt("_aes_keyexp_%d_sse", bits).c_str(), S.keyexp[ks][0], { U(key), U(kd[s]), U(tmpd) });
+                        e.call(strfmt("_aes_gcm_precomp_%d_%s", bits, gcm_fams[fam[s]]).c_str(), S.precomp[ks][fam[s]], { U(kd[s]) });
+                        e.mem.snapshot(kd[s]);
+                        ctx[s] = e.mem.alloc(sizeof(struct isal_gcm_context_data), 8, (Place) (s + 1), &e.hidden, "gcm context", R_OBJECT, 8 * (size_t) (1 + s));
+                }
+                const char *dir = dec ? "dec" : "enc";
+                auto upd = [&](int s, uint8_t *out, const uint8_t *in, size_t n) {
+                        e.call(strfmt("_aes_gcm_%s_%d_update_%s", dir, bits, gcm_fams[fam[s]]).c_str(), dec ? S.dec_upd[ks][fam[s]] : S.enc_upd[ks][fam[s]],
+                               { U(kd[s]), U(ctx[s]), U(out), U(in), n });
+                };
+                e.call(strfmt("_aes_gcm_init_%d_%s", bits, gcm_fams[fam[0]]).c_str(), S.ginit[ks][fam[0]], { U(kd[0]), U(ctx[0]), U(iv), U(aad), aad_len });
+                size_t pre = (size_t) p.get("pre");
+                if (pre) {
+                        uint8_t *in = e.mem.alloc(pre, 1, END_FLUSH, nullptr, "gcm input", R_INPUT);
+                        g.fill(in, pre);
+                        uint8_t *out = e.mem.alloc(pre, 1, END_FLUSH, &e.hidden, "gcm output", R_OUTPUT);
+                        upd(0, out, in, pre);
+                        e.obs_bytes(0x7a0, out, pre);
+                }
+                memcpy(ctx[1], ctx[0], sizeof(struct isal_gcm_context_data));
+                jump(ctx[0], J);
+                jump(ctx[1], J);
+                e.ev(mix64(0x6a75, J));
+                uint64_t start_ctr = 2 + pre / 16 + J;
+                r.cov.hit(start_ctr >= (1ull << 31) ? "fault_gcm_stream_position_jumped_to_counter_ge_2^31" : "fault_gcm_stream_position_jumped_below_2^31");
+                r.cov.hit(strfmt("probe_gcm_jump_%s_vs_%s", gcm_fams[fam[0]], gcm_fams[fam[1]]));
+                r.cov.state(mix64(0x6a00 + fam[0] * 4 + fam[1], mix64((uint64_t) (63 - __builtin_clzll(start_ctr | 1)), (uint64_t) ks * 2 + dec)));
+                std::string site = strfmt("gcm%d/%s/%s-vs-%s", bits, dir, gcm_fams[fam[0]], gcm_fams[fam[1]]);
+                uint64_t blocks = 0, bytes = 0;
+                for (size_t oi = 0; oi < p.ops.size(); oi++) {
+                        e.op_index = (int) oi;
+                        size_t n = (size_t) p.ops[oi].c;
+                        if (start_ctr + blocks + n / 16 + 2 >= (1ull << 32) - 2)
+                                break; // stay inside the 2^32 - 2 blocks a GCM message may have
+                        Mem::Mark mk = e.mem.mark();
+                        uint8_t *in = e.mem.alloc(n, 1, (Place) (p.ops[oi].d % 3), nullptr, "gcm input", R_INPUT, (size_t) ((p.ops[oi].d >> 2) % 64));
+                        g.fill(in, n);
+                        e.mem.snapshot(in);
+                        uint8_t *out[2];
+                        for (int s = 0; s < 2; s++) {
+                                out[s] = e.mem.alloc(n, 1, (Place) ((p.ops[oi].d >> (8 + s)) % 3), &e.hidden, "gcm output", R_OUTPUT, (size_t) ((p.ops[oi].d >> (10 + 3 * s)) % 64));
+                                upd(s, out[s], in, n);
+                        }
+                        e.obs_bytes(0x7a1, out[0], n);
+                        if (memcmp(out[0], out[1], n) != 0) {
+                                size_t k = 0;
+                                while (out[0][k] == out[1][k])
+                                        k++;
+                                e.violation("C07", "jump-divergence", "C07/jump-divergence/" + site,
+                                            strfmt("from the same context (block counter %llu at the start of the call, %llu bytes already processed) a %zu-byte update gives different "
+                                                   "output through the two families, first at byte %zu",
+                                                   (unsigned long long) (start_ctr + blocks), (unsigned long long) (16 * (start_ctr + blocks - 2)), n, k));
+                        }
+                        e.check_mem_all("gcm jump piece");
+                        e.mem.release(mk);
+                        bytes += n;
+                        blocks = (bytes + 15) / 16;
+                }
+                e.op_index = (int) p.ops.size();
+                uint8_t *tag[2];
+                for (int s = 0; s < 2; s++) {
+                        tag[s] = e.mem.alloc(16, 1, END_FLUSH, &e.hidden, "gcm tag out", R_OUTPUT);
+                        e.call(strfmt("_aes_gcm_%s_%d_finalize_%s", dir, bits, gcm_fams[fam[s]]).c_str(), dec ? S.dec_fin[ks][fam[s]] : S.enc_fin[ks][fam[s]],
+                               { U(kd[s]), U(ctx[s]), U(tag[s]), 16 });
+                }
+                e.obs_bytes(0x7a2, tag[0], 16);
+                if (memcmp(tag[0], tag[1], 16) != 0)
+                        e.violation("C07", "jump-divergence", "C07/jump-divergence/tag/" + site, "from the same jumped context the two families finish with different tags");
+                e.check_mem_all("end of run");
+        }
+};
+} // namespace
+Sim *make_gcmjump_sim() { return new GcmJumpSim(); }
